@@ -55,6 +55,7 @@ def configs(tier):
             out.append(dict(kernel=kernel, d=d, sizes=[0, 3], nmin=1, nmax=7 if tier == "quick" else 9, alphaq="{0, 4}"))
             out.append(dict(kernel=kernel, d=d, sizes=[3, 0, 1], nmin=1, nmax=4 if tier == "quick" else 5, alphaq="{0, 4}"))
             out.append(dict(kernel=kernel, d=d, sizes=[5], nmin=2, nmax=7 if tier == "quick" else 9, alphaq="{0, 4}"))
+            out.append(dict(kernel=kernel, d=d, sizes=[2, 1], nmin=3, nmax=2, alphaq=aq))   # cap below the floor: the cap wins
     return out
 
 
@@ -182,9 +183,19 @@ def main():
         r.iteration += 1
         r._adapt_sigma(0, 0.0)
     code_negative = bool(r.sigmas[0] < 0)
+    # unbounded companion (Apalache): the bounds as an inductive invariant for every n_min, n_max, sigma_0, D, occupancy
+    apa = {}
+    for name, kw in (("init_implies_inv", dict(inv="IndInv", init="Init", length=0)), ("inv_is_inductive", dict(inv="IndInv", init="IndInit", length=1)),
+                     ("negative_control_refuted", dict(inv="TooStrong", init="Init", length=0))):
+        st_, txt = tlc.run_apalache("KernelCtlApa", cinit="CInit", timeout=300, **kw)
+        apa[name] = st_
+    apa_ok = apa["init_implies_inv"] == "ok" and apa["inv_is_inductive"] == "ok" and apa["negative_control_refuted"] == "violation"
+    if "unavailable" in apa.values():
+        apa_ok = None
     if cov.get("Sweep", 0) == 0 or stats["behaviours_replayed"] == 0:
         raise RuntimeError("vacuous: no behaviour replayed")
     out = {"spec": "KernelCtl.tla", "tier": args.tier, "states": states, "transitions": trans, "actions": cov, **stats,
+           "apalache_unbounded_inductive_invariant": apa, "apalache_ok": apa_ok,
            "RwmPositive_refuted_by_TLC": refuted, "code_reaches_negative_rwm_sigma_n_dim_100": code_negative,
            "deviations": {k: len(v) for k, v in devs.items()}, "deviation_samples": {k: v[:2] for k, v in devs.items()}}
     for k, v in devs.items():
@@ -195,6 +206,9 @@ def main():
         with open(os.path.join(core.VERIF, "out", "x01_kernelctl.json"), "w") as f:
             json.dump(out, f, indent=1, default=str)
     unexplained = [k for k in devs if k != "wsigma-first-k"]
+    if apa_ok is False:
+        print(f"DEVIATION x01:apalache {apa}")
+        sys.exit(3)
     if not refuted or not code_negative:
         print("DEVIATION x01:rwm-sign witness not reproduced")
         sys.exit(3)
